@@ -9,10 +9,9 @@ CONSTANTS
   DropIds = {2}
   MaxFail = 1
   MaxSync = 1
-  JoinFix = FALSE
   Eager = FALSE
   Hist = FALSE
   EmitMode = "none"
-INVARIANTS TypeOK OrderPreservedKF BatchBound AcceptedAreSurvivors QueueIsSuffix LossCounted LossExact SentCounted DrainCompleteKF
+INVARIANTS TypeOK OrderPreserved BatchBound AcceptedAreSurvivors QueueIsSuffix LossCounted LossExact SentCounted DrainComplete
 PROPERTIES DropOldest
 CHECK_DEADLOCK FALSE
